@@ -7,7 +7,9 @@ if ! git -C /repo apply --check /verif/seeded/$S/patch.diff 2>/dev/null; then
 fi
 git -C /repo apply /verif/seeded/$S/patch.diff || exit 3
 (cd /repo && GOFLAGS=-mod=mod GOPROXY=off GOSUMDB=off GOTOOLCHAIN=local go build ./... ) || { echo "SEED $S: does not compile"; git -C /repo checkout -- .; exit 3; }
+cp evidence/$C.json build/evidence_$C.keep 2>/dev/null
 ./check $C --tier $T > build/seed_$S.log 2>&1; rc=$?
+cp build/evidence_$C.keep evidence/$C.json 2>/dev/null
 git -C /repo checkout -- . ; git -C /repo clean -fdq
 grep -E "^VIOLATION|^$C " build/seed_$S.log | head -4
 echo "SEED $S on $C: exit $rc"
